@@ -1,0 +1,33 @@
+//go:build verif
+
+// Contracts read by /verif/govc (comment-only; never compiled into the node).
+
+package extrinsic
+
+//@ pred cfg_ok() = types.CoresCount >= 1 && types.CoresCount <= 341 && types.ValidatorsCount >= 1 && types.ValidatorsCount <= 1023 && types.EpochLength >= 1 && types.EpochLength <= 600 && types.RotationPeriod >= 1 && types.RotationPeriod <= 600
+
+// GP (11.19) R(c, n) = [(x + n) mod C | x <- c]
+//@ func rotateCores
+//@   props C20
+//@   opt abstractmod=1
+//@   ghost j int
+//@   requires cfg: cfg_ok()
+//@   ensures rot: len(result) == len(in) && fresh(result) && (0 <= j && j < len(in) ==> result[j] == (in[j] + n) % uint32(types.CoresCount) && int(result[j]) < types.CoresCount)
+//@   loop rangeindex#0
+//@     invariant range: rangeindex >= -1 && rangeindex < len(in) && len(out) == len(in) && fresh(out)
+//@     invariant done: 0 <= j && j <= rangeindex ==> out[j] == (in[j] + n) % uint32(types.CoresCount) && int(out[j]) < types.CoresCount
+//@     invariant frame: frame_only()
+
+// GP (11.20) P(e, t): one assignment per validator (validator i starts on core floor(C*i/V) before shuffle and
+// rotation); panic-free for every entropy and slot
+//@ func permute
+//@   props C20
+//@   opt abstractmod=1
+//@   requires cfg: cfg_ok()
+//@   ensures size: len(result) == types.ValidatorsCount && fresh(result)
+//@   loop i#0
+//@     invariant base: i >= 0 && i <= types.ValidatorsCount && len(base) == types.ValidatorsCount && fresh(base)
+//@     invariant frame: frame_only()
+//@   loop rangeindex#0
+//@     invariant conv: rangeindex >= -1 && rangeindex < len(rotatedU32) && len(rotated) == len(rotatedU32) && fresh(rotated) && len(rotatedU32) == types.ValidatorsCount
+//@     invariant frame: frame_only()
